@@ -45,6 +45,11 @@ def gen_cases(tier, seed):
                     t = {'kind': 'upload', 'src': 'nonseekable' if src.startswith('nonseekable') else src, 'size': size}
                     if start is not None:
                         t['start'] = start
+                    # stream flavour: declares seekable()/readable() like io.IOBase, or only offers the methods (probed)
+                    if src == 'seekable':
+                        t['flavor'] = rng.choice(['declared', 'duck'])
+                    elif src.startswith('nonseekable'):
+                        t['flavor'] = rng.choice(['bare', 'declared', 'raising'])
                     if src == 'nonseekable_sized':
                         t['subs'] = [{'provide_size': size}]
                     spec = {
